@@ -36,13 +36,23 @@ def validated_bpb_fields(facts, with_struct_invariants=True):
     an = Analysis(facts, V, FnCtx({2: (0, 1)}, {}, set()), {}, 0, inst=(facts.insts_of.get(V.name) or [None])[0])
     out = dict(an.established)
     if with_struct_invariants:
+        hull = {}
+        try:
+            # store-hull invariants of private integer / Option<integer> fields (A13b); an existing, tighter fact wins
+            from rules import fieldinv
+            hull, _d = fieldinv.infer(facts, dict(out))
+        except Exception:
+            hull = {}
         try:
             from rules import invariants
-            ok, ranges, _detail = invariants.prove_diskslice(facts)
+            ok, ranges, _detail = invariants.prove_diskslice(facts, hull)
             if ok:
                 out.update(ranges)
         except Exception:
             pass
+        for k_, v_ in hull.items():
+            if k_ not in out:
+                out[k_] = v_
     cache[with_struct_invariants] = dict(out)
     return out
 
@@ -210,8 +220,12 @@ def run(ctx, rep):
                     not_one = zero_targets(t) if src['op'] == 'Eq' else nonzero_targets(t)
                     # on the `index != 1` arm the only way to keep the buffer is the empty-builder test
                     ok = any(c in IB.reach_from(list(not_one)) for c in clears)
-            elif src and src['kind'] == 'place' and [e.get('n') for e in src['place']['p'] if 'f' in e][-1:] == ['index'] and \
+            elif src and src['kind'] == 'place' and \
+                    [e.get('n') for e in src['place']['p'] if 'f' in e and not (e.get('n') == '0' and src['place']['p'].index(e) > 0 and
+                                                                                   ('dc' in src['place']['p'][src['place']['p'].index(e) - 1] or
+                                                                                    'vi' in src['place']['p'][src['place']['p'].index(e) - 1]))][-1:] == ['index'] and \
                     any(v == 1 for v, _ in t['targets']):
+                # (`match self.index { Some(1) => .., Some(_) => clear, None => {} }` tests the payload the same way)
                 # `match self.index { 1 => .., 0 => .., _ => clear }`: every value but 1 (and 0 = nothing seen) clears
                 others = [tb for v, tb in t['targets'] if v not in (0, 1)] + [t['otherwise']]
                 ok = all(any(c in IB.reach_from([o_]) for c in clears) for o_ in others)
@@ -310,6 +324,33 @@ def run(ctx, rep):
                     p = op_place(s['rv']['ops'][0])
                     if p is not None:
                         begin_locals.add(p['l'])
+    if not begin_locals:
+        # the slot range kept in another shape (a struct built from (start, end), a (start, count) pair ..): the range start is
+        # the named variable that is re-based on another named variable inside the read loop (`begin = offset`) and flows into
+        # the entry that is returned
+        dR = Deps(R)
+        entry_toks = set()
+        for bi in R.reachable():
+            for s in R.blocks[bi]['stmts']:
+                if s['k'] == 'assign' and s['rv']['k'] == 'agg' and (s['rv'].get('adt') or '').endswith('dir_entry::DirEntry'):
+                    for o in s['rv']['ops']:
+                        entry_toks |= dR.of_operand(o)
+        in_loop = set()
+        for body_ in R.loops().values():
+            in_loop |= set(body_)
+        for bi in in_loop:
+            for s in R.blocks[bi]['stmts']:
+                if s['k'] != 'assign' or s['lhs']['p'] or s['rv']['k'] != 'use' or not R.locals[s['lhs']['l']].get('name'):
+                    continue
+                p = op_place(s['rv']['a'])
+                if p is None or p['p']:
+                    continue
+                srcs = copy_sources(R, p['l'])
+                n_assign = sum(1 for b3 in R.reachable() for s3 in R.blocks[b3]['stmts']
+                               if s3['k'] == 'assign' and not s3['lhs']['p'] and s3['lhs']['l'] == s['lhs']['l'])
+                if any(R.locals[x].get('name') and x != s['lhs']['l'] for x in srcs) and ('local', s['lhs']['l']) in entry_toks and \
+                        n_assign >= 2:  # (a parameter of an inlined constructor is a named copy too, assigned once)
+                    begin_locals.add(s['lhs']['l'])
     # follow plain copies back to the named local
     roots_b = set(begin_locals)
     changed = True
